@@ -5,4 +5,4 @@ From LN Require Import C02_Defs.
 Extraction Language OCaml.
 Extraction "extracted/c02_model.ml" ffin fmax maxabs feq veq valid gradient_test_of gradient_test update
   update_if_better update_if_better2 value_test done_step step run init_state init_world budget_loop
-  ev_after event_ok accept_first accept_events accept_return accept same_state is_ls ls_flag_ok last2 vnan.
+  ev_after event_ok accept_first accept_events accept_return accept same_state is_ls ls_flag_ok last2 vnan value_test_ref done_ref first_impr.
